@@ -415,6 +415,7 @@ OWNERS = {
     'C06.bounds': ['C06'],
     'C06.panic': ['C06', 'C10', 'C02'],
     'C06.guard': ['C06'],
+    'C06.fault': ['C06'],
     'C06.inputempty-unconsumed': ['C06', 'C02'],
     'C06.string-content': ['C06'],
     'C06.string-realloc': ['C06'],
